@@ -202,11 +202,28 @@ class World:
         self.clock = 0
         self.blocked = False
         self.ge_count = 0
+        self.ctx_stack = []
+        self.side = {'expect': [], 'firectx': {}, 'parent': {}, 'ftime': {}, 'timer_ev': [], 'wbound': {},
+                     'treechk': [], 'optimes': [], 'gens': {}, 'callstart': {}, 'stops': [], 'tfires': [],
+                     'dtime': {}, 'droot': {}, 'froot': {}, 'foreign': [], 'moves': [], 'qlen_after': [], 'nreg': 0,
+                     'tmpl_of': {}, 'zsend': [], 'running_at': {}, 'missed': []}
+        self.last_parent = {}
         self.decl, self.builtin, self.timer_h = assign_ids(sc)
 
     # ---- logging helpers --------------------------------------------------------------
     def emit(self, s):
+        self.scan_moves()
         self.log.append(s)
+
+    def scan_moves(self):
+        for i, c in enumerate(self.comps):
+            if c is None:
+                continue
+            p = c.parent
+            old = self.last_parent.get(i)
+            if old is not None and old is not p:
+                self.side['moves'].append((len(self.log), i, 'detach' if p is c else 'attach'))
+            self.last_parent[i] = p
 
     def chan_tok(self, ch):
         if ch == '*':
@@ -222,10 +239,11 @@ class World:
             return 'c' + tok[1:]
         return self.comps[int(tok[1:])]
 
-    def new_gen(self, g):
+    def new_gen(self, g, kind=('other',)):
         if id(g) not in self.gen_ids:
             self.gen_ids[id(g)] = len(self.gen_ids)
             self.keep.append(g)
+            self.side['gens'][self.gen_ids[id(g)]] = kind
         return self.gen_ids[id(g)]
 
     @staticmethod
@@ -257,6 +275,7 @@ class World:
             ev.success_channels = tuple(self.chan_py(x) for x in t['sc'])
         if t.get('cc') is not None:
             ev.complete_channels = tuple(self.chan_py(x) for x in t['cc'])
+        ev._tmpl = ti
         return ev
 
     def do_act(self, comp, event, a):
@@ -289,6 +308,7 @@ class World:
             else:
                 owner.removeHandler(m, py_name(a[2]))
         elif k == 'reg':
+            self.side['nreg'] += 1
             self.comps[a[1]].register(self.comps[a[2]])
         elif k == 'unreg':
             if self.comps[a[1]] is not None:
@@ -296,15 +316,19 @@ class World:
         elif k == 'flush':
             comp.flush()
         elif k == 'stopMgr':
+            self.side['stops'].append((len(self.log), 'stopMgr', a[2], bool(self.comps[a[1]].running)))
             self.comps[a[1]].stop(a[2])
         elif k == 'sysExit':
+            self.side['stops'].append((len(self.log), 'sysExit', a[1], bool(comp.root.running)))
             raise SystemExit(a[1]) if a[1] is not None else SystemExit()
         elif k == 'kbdInt':
+            self.side['stops'].append((len(self.log), 'kbdInt', None, bool(comp.root.running)))
             raise KeyboardInterrupt()
         elif k == 'timerNew':
             self.timer_new(a[1])
         elif k == 'timerReset':
             if a[1] < len(self.timers) and self.timers[a[1]] is not None:
+                self.side['timer_ev'].append((len(self.log), 'reset', a[1], self.clock))
                 self.timers[a[1]].reset()
         else:
             raise ValueError(a)
@@ -323,6 +347,9 @@ class World:
         if not is_gen(prog):
             def body(self, event, *args, **kwargs):
                 world.emit(f'I {event._vid} {hid} 0')
+                if getattr(event, '_disp_root', None) is not None and self.root is not event._disp_root:
+                    world.side['foreign'].append((len(world.log) - 1, event._vid, hid))
+                world.ctx_stack.append(('h', event._vid, hid))
                 try:
                     for a in prog:
                         r = world.do_act(self, event, a)
@@ -330,6 +357,7 @@ class World:
                             return r[1]
                     return None
                 finally:
+                    world.ctx_stack.pop()
                     world.emit(f'O {event._vid} {hid}')
         else:
             def gen(self, event):
@@ -338,7 +366,9 @@ class World:
                 for a in prog:
                     k = a[0]
                     if k == 'yld':
-                        yield a[1]
+                        got = yield a[1]
+                        if got is not None:
+                            world.side['zsend'].append((eid, hid, step))
                         step += 1
                         world.emit(f'I {eid} {hid} {step}')
                     elif k in ('call', 'wait'):
@@ -348,7 +378,8 @@ class World:
                             w = self.call(world.mk_event(a[1]), *chans, **kw)
                         else:
                             w = self.wait(py_name(a[1]), *chans, **kw)
-                        world.new_gen(w)
+                        world.new_gen(w, ('wait', eid, hid, step))
+                        world.side['callstart'][(eid, hid, step)] = len(world.log)
                         from circuits.core.manager import TimeoutError as CTimeout
                         try:
                             x = yield w
@@ -369,7 +400,7 @@ class World:
             def body(self, event, *args, **kwargs):
                 world.emit(f'I {event._vid} {hid} 0')
                 g = gen(self, event)
-                world.new_gen(g)
+                world.new_gen(g, ('user', event._vid, hid))
                 world.emit(f'O {event._vid} {hid}')
                 return g
         body.__name__ = f'h{hid}'
@@ -438,6 +469,7 @@ class World:
         while len(self.timers) <= t:
             self.timers.append(None)
         self.timers[t] = tm
+        self.side['timer_ev'].append((len(self.log), 'new', t, self.clock))
         tm.register(self.comps[spec['parent']])
 
     # ---- instrumentation ----------------------------------------------------------------
@@ -477,17 +509,51 @@ class World:
                 world.events[vid] = event
             value = o_fire(self, event, *channels, **kwargs)
             chans = ','.join(world.chan_tok(c) for c in event.channels) or '-'
+            idx = len(world.log)
+            world.side['firectx'][idx] = world.ctx_stack[-1] if world.ctx_stack else ('x', None, None)
+            world.side['ftime'][idx] = world.clock
+            world.side['froot'][idx] = world.comps.index(self.root) if self.root in world.comps else None
+            if type(self).__name__ == 'Timer' and self in world.timers and event is getattr(self, 'event', None):
+                world.side['tfires'].append((idx, world.timers.index(self), world.clock))
+            if hasattr(event, '_tmpl'):
+                world.side['tmpl_of'][vid] = event._tmpl
+            if event.name == 'exception' and hasattr(event.kwargs.get('fevent'), '_vid'):
+                world.side['parent'][vid] = event.kwargs['fevent']._vid
+            par = getattr(event, 'parent', None)
+            if par is not None and hasattr(par, '_vid'):
+                world.side['parent'][vid] = par._vid
             world.emit(f"F {vid} {name_token(event.name)} {chans} {prio_tok(kwargs.get('priority', 0))}")
             return value
 
         def _dispatcher(self, event, channels, remaining):
+            if not event.cancelled:
+                world.side['expect'].append((len(world.log), event._vid, world.expected_handlers(self, event, channels)))
+            world.side['dtime'][len(world.log)] = world.clock
+            world.side['droot'][len(world.log)] = world.comps.index(self) if self in world.comps else None
+            world.side['running_at'][len(world.log)] = bool(self._running)
             world.emit(f'D {event._vid}')
             event._disp_root = self
+            if event.name == 'generate_events' and self._running and not event.cancelled:
+                now = world.clock * TICK
+                due = [i for i, t in enumerate(world.timers) if t is not None and t.root is self and t.parent is not t
+                       and not t.unregister_pending and t.expiry is not None and now >= t.expiry]
+                n0 = len(world.side['tfires'])
+                try:
+                    return o_disp(self, event, channels, remaining)
+                finally:
+                    fired = {t for (_i, t, _c) in world.side['tfires'][n0:]}
+                    for t in due:
+                        if t not in fired:
+                            world.side['missed'].append((len(world.log), t, world.clock))
             return o_disp(self, event, channels, remaining)
 
         def processTask(self, event, task, parent=None):
             world.emit(f'P {event._vid} {world.new_gen(task)}')
-            return o_pt(self, event, task, parent)
+            world.ctx_stack.append(('t', event._vid, world.gen_ids.get(id(task))))
+            try:
+                return o_pt(self, event, task, parent)
+            finally:
+                world.ctx_stack.pop()
 
         def registerTask(self, g):
             world.new_gen(g[1])
@@ -546,6 +612,10 @@ class World:
                             c._running = False
                     raise KeyboardInterrupt()
                 ticks = int(round(timeout / TICK))
+                live = [t for t in world.timers if t is not None and t.parent is not t and not t.unregister_pending
+                        and t.expiry is not None and t.root.running]
+                world.side['wbound'][len(world.log)] = (
+                    min(int(round((t.expiry - world.clock * TICK) / TICK)) for t in live) if live else None)
                 world.emit(f'W {ticks}')
                 world.clock += ticks
                 return self._flag
@@ -588,6 +658,59 @@ class World:
                 _signal.signal(_signal.SIGTERM, old_term)
 
     # ---- running ------------------------------------------------------------------------
+    def expected_handlers(self, root, event, channels):
+        """the property's own rule, evaluated on the live handler tables and tree (never on the cache):
+        user handler ids that must receive `event` dispatched by `root` on `channels`"""
+        out = set()
+
+        def walk(c):
+            seen = set()
+            for key, hs in c._handlers.items():
+                if key == '*' or key == event.name:
+                    seen.update(hs)
+            for m in seen:
+                hc = m.channel if m.channel is not None else getattr(m.__self__, 'channel', None)
+                for ch in channels:
+                    if ch == '*' or hc == '*' or hc == ch or ch is c:
+                        out.add(m)
+            out.update(c._globals)
+            for k in c.components:
+                walk(k)
+
+        walk(root)
+        ids = []
+        for m in out:
+            n = getattr(m, '__name__', '')
+            if n.startswith('h') and n[1:].isdigit():
+                ids.append(int(n[1:]))
+        return sorted(ids)
+
+    def tree_check(self):
+        """C07 invariants on the live object graph"""
+        bad = []
+        comps = [c for c in self.comps if c is not None]
+        for c in comps:
+            for k in c.components:
+                if k.parent is not c:
+                    bad.append('links: child lists a component whose parent is another')
+                if k is c:
+                    bad.append('links: component is its own child')
+            if c.parent is not c and c not in c.parent.components:
+                bad.append('links: parent does not list the child')
+            # root = top of the parent chain, no cycles
+            seen = []
+            x = c
+            while x.parent is not x:
+                if x in seen:
+                    bad.append('links: cycle')
+                    break
+                seen.append(x)
+                x = x.parent
+            else:
+                if c.root is not x:
+                    bad.append('root: root is not the top of the tree')
+        return sorted(set(bad))
+
     def subtree(self, c):
         out = [c]
         for k in c.components:
@@ -656,8 +779,12 @@ class World:
                             self.clock += op[1]
                     except SystemExit as e:
                         status = f'exn sysexit {opt(e.code)}'
+                    self.scan_moves()
                     self.ops.append(op)
                     self.oplogs.append((status, self.log[start:]))
+                    self.side['qlen_after'].append([len(c._queue) if c is not None else 0 for c in self.comps])
+                    self.side['treechk'].append(self.tree_check())
+                    self.side['optimes'].append(self.clock)
                     if self.blocked:
                         pending = []
                         break
